@@ -1398,12 +1398,60 @@ def _stale_block(old: str, name: str):
     return m.group(1).rstrip('\n').split('\n') if m else None
 
 
+def extracted_sources(repo: Path) -> dict:
+    """{target key: dict(text=<C++ text of the function as it stands>, hash=…, enum={name: value} | None)} — what the
+    differential run of harness/foundation/cscalar.py compiles stand-alone; a target that cannot be located is absent"""
+    out = {}
+    for tg in TARGETS:
+        try:
+            f = pick_function(repo, tg)
+            enum = None
+            if tg.get('enum'):
+                enum = (tg['enum'][1], parse_enum(tg['enum'][0], (repo / tg['enum'][0]).read_text(), tg['enum'][1]))
+            out[tg['key']] = dict(text=f.text, hash=f.hash, enum=enum, func=tg['func'], lean=tg['lean'])
+        except TranslationError:
+            continue
+    return out
+
+
+def handle_block(entries) -> list[str]:
+    """the driver entry point `cs fn=<name> [dt=<dtype>] a=<scalars> l0=<list> l1=<list>`: evaluates a generated definition
+    (used by harness/foundation/cscalar.py to compare it with the compiled C++ text)"""
+    s = ['/-- driver op `cs`: `fn` = generated definition, `a` = its scalar arguments in order, `l0, l1, …` = its list',
+         '    arguments in order, `dt` = dtype name; answers `r=<value>` (`r=u` for `none`) -/',
+         'def handle (a : Args) : String :=',
+         '  let xs := a.ints "a"',
+         '  let x (i : Nat) : Int := xs.getD i 0',
+         '  let dt := DT.ofName (a.str "dt")',
+         '  match a.str "fn" with']
+    for lean, kinds, uses_dt, opt in entries:
+        args, si, li = [], 0, 0
+        for kd in kinds:
+            if kd == 'list':
+                args.append(f'(a.ints "l{li}")')
+                li += 1
+            elif kd == 'bool':
+                args.append(f'(decide (x {si} ≠ 0))')
+                si += 1
+            else:
+                args.append(f'(x {si})')
+                si += 1
+        call = f'{lean} {"dt " if uses_dt else ""}{" ".join(args)}'
+        if opt:
+            s.append(f'  | "{lean}" => match {call} with | some v => s!"r={{v}}" | none => "r=u"')
+        else:
+            s.append(f'  | "{lean}" => s!"r={{{call}}}"')
+    s += ['  | f => s!"error=unknown-fn-{f}"', '']
+    return s
+
+
 def generate(repo: Path, outdir: Path) -> dict:
     tp = outdir / 'CScalar.lean'
     old = tp.read_text() if tp.exists() else ''
     failed, names, known = {}, {}, {}
     s = [HEADER]
     done = 0
+    entries = []
     for tg in TARGETS:
         blk = 'cscalar:' + tg['key']
         try:
@@ -1415,11 +1463,14 @@ def generate(repo: Path, outdir: Path) -> dict:
             if lines is None:
                 raise
             failed[blk] = f'TranslationError: {e}'
+        uses_dt = '(dt : DT)' in '\n'.join(lines)
         known[tg['func'] if tg['pick'] != 'full' else tg['key']] = dict(
             lean=tg['lean'], params=[kd for _, kd in tg['params']], ret=tg['ret_kind'],
-            dt=('T-as-arg' if tg.get('template_call') else ('dt : DT' in '\n'.join(lines))))
+            dt=('T-as-arg' if tg.get('template_call') else uses_dt))
+        entries.append((tg['lean'], [kd for _, kd in tg['params']], uses_dt, bool(tg.get('flag_const'))))
         names[blk] = ['Mahotas.Generated.C.' + n for n in defined_names('\n'.join(lines))]
         s += [f'-- BEGIN block {blk}'] + list(lines) + [f'-- END block {blk}', '']
+    s += handle_block(entries)
     s += ['end Mahotas.Generated.C', '']
     changed = _write_if_changed(tp, '\n'.join(s))
     return dict(cscalar_changed=changed, cscalar_functions=done, _failed=failed, _names=names)
